@@ -320,6 +320,9 @@ pub fn replay_cmd(file: &Path) -> i32 {
         eprintln!("cannot parse {file:?}");
         return 2;
     };
+    if j.get("case").is_some_and(|c| c.gs("kind") == "trace") {
+        return crate::trace::replay_trace(&j, file);
+    }
     if j.gs("expect") == "signal" {
         // the case is expected to kill the process: run it in a child
         let st = Command::new(std::env::current_exe().unwrap())
